@@ -400,7 +400,7 @@ def _eval_state(ctx, st, case, am, ph, I):
                    detail={"E": E["am"].tolist(), "logdiag": logdiag.tolist()}, sig="logdomain/energy-marginal", theorem="C02_probability_eq_aux_marginal")
         ctx.oracle("log-domain exponent diagonal == -E_am", bool(np.all(np.abs(d + E["am"]) <= 1e-7 * (1 + np.abs(d)))), case,
                    detail={"diag": d.tolist(), "E": E["am"].tolist()}, sig="logdomain/diagonal", theorem="C02_diagonal")
-        ev = np.linalg.eigvalsh((Cimpl + Cimpl.conj().T) / 2)
+        ev = safe_eigvalsh((Cimpl + Cimpl.conj().T) / 2)
         ctx.oracle("normalised matrix Hermitian", bool(np.all(np.abs(Cimpl - Cimpl.conj().T) <= 1e-9)), case, sig="logdomain/hermitian", theorem="C02_hermitian")
         ctx.oracle("normalised matrix eigenvalues >= 0", bool(ev.min() >= -1e-9 * N), case, detail={"min_eig": float(ev.min())},
                    sig="logdomain/psd", theorem="C02_posSemidef")
@@ -466,7 +466,7 @@ def _eval_state(ctx, st, case, am, ph, I):
     ctx.oracle("rho Hermitian", bool(np.all(np.abs(Rc - Rc.conj().T) <= tolM)), case,
                detail={"max": float(np.max(np.abs(Rc - Rc.conj().T)))}, sig="rho/hermitian", theorem="C02_hermitian")
     tr = float(np.trace(Rc).real)
-    ev = np.linalg.eigvalsh((Rc + Rc.conj().T) / 2)
+    ev = safe_eigvalsh((Rc + Rc.conj().T) / 2)
     ctx.oracle("eigvalsh(rho) >= -1e-10*trace", bool(ev.min() >= -1e-10 * tr), case, detail={"min_eig": float(ev.min()), "trace": tr},
                sig="rho/psd", theorem="C02_posSemidef")
     tol1 = 1e-9 * sc + 1e-7 * np.abs(p1)
@@ -532,7 +532,7 @@ def nz_probe(ctx):
         ctx.point("nz-probe rho_im", "aux", R[1], mim, case, scale=sc, sig="nz-probe/rho")
     sc = float(np.max(np.abs(Rc)))
     ok = bool(np.all(np.abs(Rc - Ror) <= 1e-9 * sc + 1e-7 * np.abs(Ror)))
-    ev = np.linalg.eigvalsh((Rc + Rc.conj().T) / 2)
+    ev = safe_eigvalsh((Rc + Rc.conj().T) / 2)
     ctx.oracle("nz-probe: rho == partial trace (limit value 0 at the excluded entry)", ok, case,
                detail={"impl": [float(Rc[i, j].real), float(Rc[i, j].imag)], "oracle": [float(Ror[i, j].real), float(Ror[i, j].imag)]},
                sig="nz-probe/partial-trace")
@@ -567,6 +567,16 @@ def malformed(ctx):
 
 
 # ------------------------------------------------------------------ generation
+
+def safe_eigvalsh(M):
+    """eigenvalues of a Hermitian matrix; a matrix with non-finite entries (or one numpy cannot diagonalise) counts as
+    'not positive semidefinite' instead of crashing the harness"""
+    try:
+        return np.linalg.eigvalsh(M) if np.all(np.isfinite(M)) else np.array([-np.inf])
+    except np.linalg.LinAlgError:
+        return np.array([-np.inf])
+
+
 def make_case(rng, n, h, a, scale, d_zero, n_vec, tag="gen"):
     am = qc.rand_prbm_params(rng, n, h, a, scale)
     ph = qc.rand_prbm_params(rng, n, h, a, scale, d_zero=d_zero)
@@ -636,6 +646,21 @@ def gen_cases(ctx, thorough):
                            "ph": qc.rand_prbm_params(ctx.rng, n, h, a, sc, d_zero=ctx.rng.random() < 0.3)}
             idx += 1
             yield case
+    # saturated single units: O(1) parameters except individual hidden / auxiliary biases of +-(22..34) in either network
+    # (the softplus / sigmoid / log-sum paths must stay accurate where exp(-x) falls below the float64 epsilon)
+    for k in range(16 if thorough else 3):
+        n, h, a = ctx.rng.choice([(2, 2, 2), (3, 2, 1), (2, 3, 2), (1, 1, 1)])
+        case = make_case(ctx.rng, n, h, a, 0.5, k % 2 == 0, 6 if thorough else 3, tag="saturated-unit")
+        for net in ("am", "ph"):
+            for key in ("c", "d"):
+                if net == "ph" and key == "d":
+                    continue
+                vec = case[net][key]
+                j = ctx.rng.randrange(len(vec))
+                if ctx.rng.random() < 0.75:
+                    vec[j] = ctx.rng.choice([1.0, 1.0, -1.0]) * ctx.rng.uniform(22.0, 34.0)
+        case["sampling"] = []
+        yield case
     # beyond the exp domain (|exponent| > 600, partly beyond float64 range inside pi): log-domain points only
     for k in range(12 if thorough else 2):
         yield make_case(ctx.rng, 3, 4, 4, 100.0 if k % 2 == 0 else 300.0, k % 4 >= 2, 3, tag="overflow-probe")
